@@ -217,12 +217,14 @@ theorem backup_dur {dir : String} {s : St} {db0 : DB} (hs0 : s.db = some db0) (h
     DurJ dir (backup s dest).1 := by
   obtain ⟨⟨db, hs, hd⟩, hms⟩ := hj
   rw [hs0] at hs; cases hs
-  obtain ⟨X, e⟩ := backup_eq hs0 dest
+  obtain ⟨W, e, hwd, hwm⟩ := backup_eq hs0 dest
   rw [e]
-  have hw : (s.world.set dest X).get db0.dir = s.world.get db0.dir :=
-    MergeP.get_set_ne _ _ _ _ (by rw [hd0]; exact fun e => h1 e.symm)
-  refine ⟨⟨db0, hs0, DInv_of_dirOf hd ?_ rfl⟩, hms.congr (MergeP.get_set_ne _ _ _ _ (fun e => h2 e.symm))⟩
-  show ((s.world.set dest X).get db0.dir).getD DirSt.empty = (s.world.get db0.dir).getD DirSt.empty
+  have hw : W.get db0.dir = s.world.get db0.dir := hwd (by rw [hd0]; exact h1)
+  have hw2 : W.get (mergeDirName dir) = s.world.get (mergeDirName dir) := by
+    have := hwm (by rw [hd0]; exact h1) (by rw [hd0]; exact h2)
+    rw [hd0] at this; exact this
+  refine ⟨⟨db0, hs0, DInv_of_dirOf hd ?_ rfl⟩, hms.congr hw2⟩
+  show (W.get db0.dir).getD DirSt.empty = (s.world.get db0.dir).getD DirSt.empty
   rw [hw]
 
 /-! ## one call -/
